@@ -51,6 +51,8 @@ func runC01(r *oblig.Report) {
 	e1variants.EnumTables(c.P, r, "R1.3", w.LexerG, false) // DSL-born models only contain types the lexer knows
 	e5path.ExpressionVerbatim(c.P, r, "C01.5")
 	e5path.FirstPositionRecursion(c.P, r, "C02.1b")
+	r.Rule("C01.6", "instance-table", "the element type of a container parameter is kept whenever the tokens are present", 1)
+	e5path.ElementTypeKept(c.P, r, "C01.6")
 	// the second rendering loses nothing and is byte-stable: restriction parts (shared with C02), printer order (shared with C14)
 	r.Rule("C02.6", "instance-table", "every part of a restriction is considered on every path", 3)
 	r.Rule("C02.7", "instance-table", "no success with empty text unless the input is empty", 8)
